@@ -375,6 +375,61 @@ class Program:
                 self.by_pattern.setdefault(f.d["pattern"], []).append(f.usr)
         self._overriders = None
         self._derived = None
+        self.params_canonicalised = self._canonical_params()
+
+    # ---- parameter names
+    PARAM_TABLE = os.path.join(os.path.dirname(os.path.abspath(__file__)), "param_names.json")
+
+    @staticmethod
+    def param_key(f):
+        return "%s(%s)" % (plain(f.d["qname"]), ",".join(p.get("type", "?") for p in f.d["params"]))
+
+    def _canonical_params(self):
+        """Parameters are identified by position and type, not by spelling: a function whose parameter list has the same types as
+        on the reference tree (param_names.json, written by tools/gen_param_names.py) has its parameters renamed to the reference
+        names in the node tables, so a renamed parameter changes nothing for any rule.  Skipped for a function in which the
+        reference name is already used by another declaration.  Returns the renamings applied, for the evidence."""
+        try:
+            import json
+            with open(self.PARAM_TABLE) as fh:
+                table = json.load(fh)
+        except (OSError, ValueError):
+            return []
+        done = []
+        kids = {}
+        for f in self.fns.values():
+            if f.d.get("parentfn"):
+                kids.setdefault(f.d["parentfn"], []).append(f)
+        for f in list(self.fns.values()):
+            ref = table.get(self.param_key(f))
+            if not ref or len(ref) != len(f.params) or f.d.get("parentfn"):
+                continue
+            ren = {p["decl"]: (p["name"], r) for p, r in zip(f.params, ref) if p.get("name") and r and p["name"] != r and p.get("decl")}
+            if not ren:
+                continue
+            scope = [f]
+            stack = list(kids.get(f.usr, []))
+            while stack:
+                l = stack.pop()
+                scope.append(l)
+                stack.extend(kids.get(l.usr, []))
+            used = set()
+            for g in scope:
+                for n in g.nodes:
+                    if n["k"] == "decl":
+                        used |= {v["name"] for v in n.get("vars", [])}
+                used |= {p["name"] for p in g.params if p.get("decl") not in ren}
+            if any(new in used for _, new in ren.values()):
+                continue
+            for g in scope:
+                for n in g.nodes:
+                    if n["k"] == "ref" and n.get("decl") in ren:
+                        n["name"] = ren[n["decl"]][1]
+                for p_ in g.params:
+                    if p_.get("decl") in ren:
+                        p_["name"] = ren[p_["decl"]][1]
+            done.append("%s: %s" % (f.pq, ", ".join("%s -> %s" % v for v in ren.values())))
+        return done
 
     # ---- lookup
     def fn(self, qname, must=True, pick=None):
@@ -453,6 +508,11 @@ def load(repo="/repo", use_cache=True):
     with open(os.path.abspath(__file__), "rb") as _f:
         import hashlib
         fp = hashlib.sha256((fp + hashlib.sha256(_f.read()).hexdigest()).encode()).hexdigest()
+    try:
+        with open(Program.PARAM_TABLE, "rb") as _f:
+            fp = hashlib.sha256((fp + hashlib.sha256(_f.read()).hexdigest()).encode()).hexdigest()
+    except OSError:
+        pass
     pk = os.path.join(facts.CACHE, "merged", fp + ".pickle")
     if use_cache and os.path.exists(pk):
         try:
